@@ -218,3 +218,8 @@ Definition wf_decl (d : decl) : bool :=
 (* known finding K1: a reversible toggle `foo` declared together with something called `no-foo` *)
 Definition no_prefix_clash (d : decl) : bool :=
   forallb (fun t => negb (t_rev t) || negb (existsb (seq_eqb (skipn 2 no_prefix ++ t_name t)) (all_names d))) (d_toggles d).
+
+(* the hypothesis under which the theorems are stated: no toggle `foo` (reversible or not) next to anything called `no-foo`
+   (a non-reversible `foo` still claims the token --no-foo, only to reject it) *)
+Definition no_clash (d : decl) : bool :=
+  forallb (fun t => negb (existsb (seq_eqb (skipn 2 no_prefix ++ t_name t)) (all_names d))) (d_toggles d).
